@@ -30,7 +30,8 @@ func TestMain(m *testing.M) {
 }
 
 type Step struct {
-	Op    string `json:"op"` // pub | pubrel | sweep
+	Op    string `json:"op"` // pub | pubrel | sweep | sub (a subscriber for filter Topic appears on node Node)
+	Node  int    `json:"node,omitempty"`
 	C     int    `json:"c"`
 	QoS   int    `json:"qos,omitempty"`
 	ID    uint16 `json:"id,omitempty"`
@@ -114,9 +115,10 @@ func run(c Case) (f *failure, nontrivial bool) {
 	for i := range pending {
 		pending[i] = map[uint16]pend{}
 	}
+	subsNow := append([]SubAt{}, c.Subs...)
 	dests := func(topic string) map[int]bool {
 		D := map[int]bool{}
-		for _, s := range c.Subs {
+		for _, s := range subsNow {
 			if ref.MatchS(s.Filter, topic) {
 				D[s.Node] = true
 			}
@@ -158,6 +160,34 @@ func run(c Case) (f *failure, nontrivial bool) {
 		return n
 	}
 	for si, st := range c.Steps {
+		if st.Op == "sub" {
+			// a subscriber appears (on a node that may have hosted none so far) between two publishes;
+			// the next publish follows at once
+			if st.Node >= c.Nodes {
+				continue
+			}
+			k := cl.NewClient(fmt.Sprintf("latesub%d", si))
+			k.AttachTo(cl.Nodes[st.Node])
+			k.Send(sim.EncConnect(sim.ConnectOpts{ClientID: k.Name, KeepAlive: 6000}))
+			if f := settle(); f != nil {
+				return f, nontrivial
+			}
+			// every topic has just been published on (QoS 0, not judged) when the subscription
+			// appears, and the next step follows one settle later: whatever the broker remembers
+			// about a topic from its last publish is as fresh as it gets
+			if len(pubs) > 0 && !dead[0] {
+				for ti, tp := range topics {
+					pubs[0].Send(sim.EncPublish(tp, []byte(fmt.Sprintf("warm-%d-%d", si, ti)), 0, false, false, 0))
+				}
+			}
+			k.Send(sim.EncSubscribe(1, []string{st.Topic}, []byte{0}))
+			if f := settle(); f != nil {
+				return f, nontrivial
+			}
+			subsNow = append(subsNow, SubAt{st.Node, st.Topic})
+			nontrivial = true
+			continue
+		}
 		if st.C >= c.Clients || dead[st.C] {
 			continue
 		}
@@ -402,6 +432,9 @@ func TestRandom(t *testing.T) {
 		n := rapid.IntRange(2, 14).Draw(t, "steps")
 		for i := 0; i < n; i++ {
 			st := Step{C: rapid.IntRange(0, c.Clients-1).Draw(t, "c"), ID: uint16(rapid.IntRange(1, 3).Draw(t, "id"))}
+			if rapid.IntRange(0, 7).Draw(t, "lateSub") == 0 {
+				c.Steps = append(c.Steps, Step{Op: "sub", Node: rapid.IntRange(0, c.Nodes-1).Draw(t, "subNode"), Topic: rapid.SampledFrom(filters).Draw(t, "subFilter")})
+			}
 			switch x := rapid.IntRange(0, 9).Draw(t, "op"); {
 			case x < 5:
 				st.Op, st.QoS, st.Topic, st.Dup = "pub", rapid.IntRange(0, 2).Draw(t, "qos"), rapid.SampledFrom(topics).Draw(t, "topic"), rapid.IntRange(0, 3).Draw(t, "dup") == 0
